@@ -246,6 +246,15 @@ pub proof fn contract_c01_4_key_and_sign(s: L_State, i: int, j: int)
     assumed_c10_2(s, Zeroth);
 }
 
+// ---- C02 (one clause): "the matrix dmu_i/dN_j is symmetric" - for every selector: the residual part reads the
+// mixed key (DN(i), DN(j)), which denotes the same derivative as (DN(j), DN(i)) (canonical keys: unit cache); the
+// ideal-gas part is diagonal.
+pub proof fn contract_c02_dmu_dni_symmetric(s: L_State, c: Contributions, i: int, j: int)
+    ensures (dmu_dni(s, c).at)(i, j) == (dmu_dni(s, c).at)(j, i)
+{
+    assumed_canonical_keys(s, DN(i), DN(j));
+}
+
 // ---- C01 (caloric properties): the textbook relations between the caloric / volumetric properties and the
 // primitive derivatives (c_v = T/N (dS/dT)_V,  c_p = T/N [(dS/dT)_V - (dp/dT)^2/(dp/dV)],  kappa_T = -1/(V dp/dV),
 // mu_JT = -(V + T (dp/dT)/(dp/dV)) / (N c_p),  H = TS + A + pV, ...), for every selector where one is taken.
